@@ -31,3 +31,10 @@ PROP = {
         "the e2e pass judges real-time behaviour with wide margins only (idle 2.5 x T8 must not drop; stall 4 x T8 must drop; in-frame gaps are 100x below T8)",
     ],
 }
+
+
+MANIFEST = {
+    "text": 'Coq theorems over all byte strings, segmentations and gap sequences: the decode entry points are total (instrumented Panic twins), accept iff wf_frame (length field = remaining, within [10, cap], PType 0, defined SType) and agree with each other; body-error stability for ANY body decoder (once-cell: every holder, every call, at most one decode); the receive loop as a machine over timed segments: segmentation independence against an independent reference frame parser, idle gaps of any duration never drop, an in-frame gap > T8 drops exactly there, every allocation lies in [10, cap] and a bad length drops with no allocation of the claimed size. Tied by bridges (SType set, cap), a decode differential under recover, the REAL readFrame run over a simulated conn in virtual time (injected now/allocFrame; event lists must be equal) and an e2e pass with a scripted peer writing random segmentations.',
+    "note": 'Virtual-time model: a gap of exactly T8 is not a timeout; real timer accuracy observed only with wide margins (e2e); sync.Once modelled as an option cell.',
+    "technique": 'Rocq/Coq proof (instrumented twins, machine over timed segments) + real readFrame over a simulated conn with injected clock/allocator + decode differential + e2e scripted peer',
+}
